@@ -43,7 +43,16 @@ def seeded(n, seed, salt=0):
     return rng.uniform(-1.0, 1.0, size=n)
 
 
-REC = {"id1": id1, "id2": id2, "id3": id3, "id4": id4, "pow": powrec, "chirp": chirp}
+def off(n):
+    """Large offset plus small structure: per-segment products with low relative scatter."""
+    return 1000.0 + 0.01 * id1(n)
+
+
+def off2(n):
+    return -700.0 + 0.02 * id2(n)
+
+
+REC = {"off": off, "off2": off2, "id1": id1, "id2": id2, "id3": id3, "id4": id4, "pow": powrec, "chirp": chirp}
 
 
 def get(name, n, seed=0):
